@@ -200,6 +200,27 @@ func c12Expand(c *C12Case) (old, nw []byte) {
 			return r.Intn(1200)
 		}
 	}
+	if c.Shape == "aligned32k" {
+		// old size an exact multiple of the patcher's 32 KiB read-cache chunk; edits close to the end so that an
+		// add region ends on the last byte of the old file
+		k := r.Pick(1, 2, 3, 5, 8, 32)
+		old = r.Bytes(k * 32768)
+		nw = append([]byte(nil), old...)
+		for e := 0; e < 1+r.Intn(3); e++ {
+			pos := len(nw) - 1 - r.Intn(40)
+			if e > 0 {
+				pos = r.Intn(len(nw))
+			}
+			nw[pos] ^= byte(1 + r.Intn(255))
+		}
+		switch r.Intn(4) {
+		case 0:
+			nw = append(nw, r.Bytes(1+r.Intn(100))...)
+		case 1:
+			nw = append(r.Bytes(1+r.Intn(50)), nw...)
+		}
+		return
+	}
 	big := c.Shape == "big" || c.Shape == "bigperiodic"
 	n := sz()
 	if big {
@@ -358,7 +379,7 @@ func runC12(env *Env) {
 		nRand, nBig = 6000, 200
 	}
 	rng := wvlib.NewRng(env.Seed)
-	shapes := []string{"random", "periodic", "lowentropy", "random"}
+	shapes := []string{"random", "periodic", "lowentropy", "random", "aligned32k"}
 	for i := 0; i < nRand; i++ {
 		cases = append(cases, &C12Case{Kind: "gen", Seed: rng.Next(), Shape: shapes[i%len(shapes)], Partitions: rng.Intn(17), Conc: rng.Pick(0, 0, 1, 2, -1), Split: rng.Pick(-1, -1, rng.Intn(50))})
 	}
